@@ -95,6 +95,26 @@ class GList:
         return "GList(%d)" % len(self.items)
 
 
+class GItem:
+    """element of a python list that is present only under a guard (in-place guarded append)"""
+    __slots__ = ("g", "v")
+
+    def __init__(self, g, v):
+        self.g = g
+        self.v = v
+
+    def __repr__(self):
+        return "GItem(%r)" % (self.v,)
+
+
+def has_gitems(lst):
+    return isinstance(lst, list) and any(isinstance(x, GItem) for x in lst)
+
+
+def as_glist(lst):
+    return GList([(x.g, x.v) if isinstance(x, GItem) else (True, x) for x in lst])
+
+
 class SymDict:
     """dict with guarded key presence: entries = {key: (guard, value)} (insertion ordered)"""
 
